@@ -8,3 +8,6 @@ func vtrace(src any, ev string, kv ...int) {}
 
 // vtraceCipher reports a cipher state about to be used.
 func vtraceCipher(c *cipherState, ev string) {}
+
+// vtraceClient reports a status-related step of a ClientConn.
+func vtraceClient(c *ClientConn, ev string, s ClientStatus) {}
